@@ -675,4 +675,53 @@ theorem render_ok_inv {rs : List (Str × R NodeInfoM)} {inv : InventoryM}
     cases h
     simp
 
+/-! ### Facts about an index built from the empty index -/
+
+theorem mem_ixLookup_ixFold {g : NodeInfoM → List Str} {k n : Str} {infos : List (Str × NodeInfoM)} :
+    n ∈ ixLookup k (ixFold g infos []) ↔ ∃ info, (n, info) ∈ infos ∧ k ∈ g info := by
+  rw [ixLookup_ixFold_eq, mem_sortStrs, mem_occ]
+
+theorem mem_keys_ixFold_nil {g : NodeInfoM → List Str} {k : Str} {infos : List (Str × NodeInfoM)} :
+    k ∈ (ixFold g infos []).map Prod.fst ↔ ∃ n info, (n, info) ∈ infos ∧ k ∈ g info := by
+  rw [mem_keys_ixFold]
+  simp only [List.map_nil, List.not_mem_nil, false_or]
+  constructor
+  · rintro ⟨⟨n, info⟩, hp, hk⟩; exact ⟨n, info, hp, hk⟩
+  · rintro ⟨n, info, hp, hk⟩; exact ⟨(n, info), hp, hk⟩
+
+theorem nodup_keys_ixFold_nil (g : NodeInfoM → List Str) (infos : List (Str × NodeInfoM)) :
+    ((ixFold g infos []).map Prod.fst).Nodup :=
+  nodup_keys_ixFold (by simp)
+
+theorem nonempty_ixFold_nil (g : NodeInfoM → List Str) (infos : List (Str × NodeInfoM)) :
+    ∀ p ∈ ixFold g infos [], p.2 ≠ [] :=
+  nonempty_ixFold (by simp)
+
+theorem sorted_ixFold_nil (g : NodeInfoM → List Str) (infos : List (Str × NodeInfoM)) :
+    ∀ p ∈ ixFold g infos [], p.2.Pairwise (fun a b => strLe a b = true) :=
+  sorted_ixFold (by simp)
+
+theorem entry_eq_ixLookup_ixFold {g : NodeInfoM → List Str} {infos : List (Str × NodeInfoM)}
+    {p : Str × List Str} (hp : p ∈ ixFold g infos []) : p.2 = sortStrs (occ g p.1 infos) := by
+  rw [← ixLookup_ixFold_eq]
+  exact (ixLookup_eq_of_mem (nodup_keys_ixFold_nil g infos) (show (p.1, p.2) ∈ _ from hp)).symm
+
+theorem nodup_entry_ixFold {g : NodeInfoM → List Str} {infos : List (Str × NodeInfoM)}
+    (hn : (infos.map Prod.fst).Nodup) (hg : ∀ p ∈ infos, (g p.2).Nodup) :
+    ∀ p ∈ ixFold g infos [], p.2.Nodup := by
+  intro p hp
+  rw [entry_eq_ixLookup_ixFold hp]
+  exact (sortStrs_perm _).nodup_iff.2 (nodup_occ hn hg)
+
+/-- If no node mentions a key twice, the mentions of `k` are the names of the nodes having `k`. -/
+theorem occ_eq_filter {g : NodeInfoM → List Str} {k : Str} {infos : List (Str × NodeInfoM)}
+    (hg : ∀ p ∈ infos, (g p.2).Nodup) :
+    occ g k infos = (infos.filter (fun p => decide (k ∈ g p.2))).map Prod.fst := by
+  induction infos with
+  | nil => simp [occ]
+  | cons p ps ih =>
+    rw [occ_cons, ih (fun q hq => hg q (List.mem_cons_of_mem _ hq)),
+      (hg p List.mem_cons_self).count, List.filter_cons]
+    by_cases h : k ∈ g p.2 <;> simp [h]
+
 end Reclass
